@@ -154,6 +154,9 @@ func (e *Engine) blockFailStops(b *ssa.BasicBlock) bool {
 		if c, ok := in.(*ssa.Call); ok && e.NoReturnCall(c) {
 			return true
 		}
+		if _, ok := in.(*ssa.Panic); ok {
+			return true
+		}
 	}
 	return false
 }
